@@ -11,14 +11,17 @@ EXTENDS MsgBuilder, Json, IOUtils
 
 Rec == ndJsonDeserialize(IOEnv.TRACE)
 
-VARIABLE l
-tvars == <<vars, l>>
+VARIABLES l,
+          idk    \* the message ID is known (FALSE after request_axfr, which draws a random one)
+tvars == <<vars, l, idk>>
+IdKnown == idk
 
 IsEv(e) == l <= Len(Rec) /\ Rec[l].ev = e /\ l' = l + 1
 
-TInit == l = 1 /\ Init0("none", "vec", Unbounded)
+TInit == l = 1 /\ idk = TRUE /\ Init0("none", "vec", Unbounded)
 
 T_New == /\ IsEv("new")
+         /\ idk' = TRUE
          /\ cfg' = [comp |-> Rec[l].comp, tgt |-> Rec[l].tgt, cap |-> Rec[l].cap]
          /\ buf' = BAppend(EmptyBuf, [i \in 1..12 |-> 0])
          /\ tab' = EmptyTab(Rec[l].comp)
@@ -28,42 +31,60 @@ T_New == /\ IsEv("new")
          /\ limit' = NoLimit
          /\ shim' = 12
          /\ accepted' = <<>>
+         /\ hdr' = <<0, 0, 0, 0>>
          /\ res' = "-" /\ amb' = FALSE
 
 Observed == /\ buf'.len = Rec[l].len
             /\ HdrCounts(buf') = Rec[l].cnt
             /\ shim' = Rec[l].shim
+            /\ BU16(buf', 2) = Rec[l].fl                 \* flags, opcode, RCODE
+            /\ (IdKnown' => BU16(buf', 0) = Rec[l].id)   \* message ID unless it is a random one
 
+HasRc(e) == "rc" \in DOMAIN e
 T_Push == /\ IsEv("push")
           /\ LET it == Rec[l].item IN
                \/ PushQuestion(it)
                \/ (it.k = "r" /\ it.rtype # 41 /\ PushRecord(it))
-               \/ (it.k = "r" /\ it.rtype = 41 /\ PushOpt(it))
+               \/ (it.k = "r" /\ it.rtype = 41 /\ ~HasRc(Rec[l]) /\ PushOpt(it))
+               \/ (it.k = "r" /\ it.rtype = 41 /\ HasRc(Rec[l]) /\ PushOptRcode(it, Rec[l].rc))
           /\ res' = Rec[l].res
+          /\ idk' = idk
           /\ Observed
 
-T_Goto == IsEv("goto") /\ GotoSection(Rec[l].s) /\ Observed
-T_Rewind == IsEv("rewind") /\ Rewind /\ Observed
-T_Limit == IsEv("limit") /\ SetLimit(Rec[l].n) /\ Observed
-T_Clear == IsEv("clear") /\ ClearLimit /\ Observed
+T_Hdr == IsEv("hdr") /\ SetHeader(Rec[l].h) /\ idk' = TRUE /\ Observed
+\* a start_answer / request_axfr that failed consumed the builder: nothing was observed
+T_Start == /\ IsEv("start")
+           /\ StartReply(Rec[l].kind, Rec[l].rq, Rec[l].rc, Rec[l].qs)
+           /\ res' = Rec[l].res
+           /\ idk' = (Rec[l].kind # "axfr")
+           /\ (res' # "gone" => Observed)
+
+T_Goto == IsEv("goto") /\ GotoSection(Rec[l].s) /\ idk' = idk /\ Observed
+T_Rewind == IsEv("rewind") /\ Rewind /\ idk' = idk /\ Observed
+T_Limit == IsEv("limit") /\ SetLimit(Rec[l].n) /\ idk' = idk /\ Observed
+T_Clear == IsEv("clear") /\ ClearLimit /\ idk' = idk /\ Observed
 
 T_Finish ==
   /\ IsEv("finish")
   /\ Finish
+  /\ idk' = idk
   /\ LET real == BufOfSeq(Rec[l].octets)
          v == ParsesBackTo(real, accepted, cfg.comp = "none")
      IN /\ real.len = buf.len
+        /\ SubSeq(real.s, 3, 4) = SubSeq(BHdr(buf), 3, 4)
+        /\ (idk => SubSeq(real.s, 1, 2) = SubSeq(BHdr(buf), 1, 2))
         /\ v = ParseBack              \* same verdict as for the octets of the specification,
         /\ (Dev = {} => v)            \* which is "parses back" unless a deviation is being replayed
         /\ Rec[l].lib = v             \* the library's own reader agrees (checked by the recorder)
   /\ Rec[l].noop = TRUE             \* failed pushes left the octets bit-identical
   /\ Rec[l].shim_ok = TRUE          \* stream slice = prefix + message, prefix = length
 
-TNext == T_New \/ T_Push \/ T_Goto \/ T_Rewind \/ T_Limit \/ T_Clear \/ T_Finish
+TNext == T_New \/ T_Push \/ T_Hdr \/ T_Start \/ T_Goto \/ T_Rewind \/ T_Limit \/ T_Clear \/ T_Finish
 TSpec == TInit /\ [][TNext]_tvars
 
 \* evaluated in every state of the replay
 TraceInv == /\ CountsMatch /\ ShimMatches /\ WithinCapacity
+            /\ (idk => HeaderKept)
             /\ TableWithinBufferDev
 
 Accepted ==
